@@ -1,0 +1,45 @@
+//go:build verif
+
+package event
+
+import (
+	"context"
+
+	"github.com/AliceO2Group/Control/common/ecsmetrics"
+	"github.com/AliceO2Group/Control/common/event/topic"
+	"github.com/AliceO2Group/Control/common/monitoring"
+	"github.com/segmentio/kafka-go"
+	"github.com/spf13/viper"
+)
+
+// VerifNewWithCap is NewWriterForVerif with the capacity of the hand-over channel
+// (toBatchMessagesChan, the literal 10000 in NewWriterWithTopic) as a parameter: the same
+// struct, the same two goroutines, the broker call replaced by writeFn. A small capacity
+// makes "the hand-over channel is full" cheap to reach. Verification builds only (tag `verif`).
+//
+// It is declared as a method (it does not use its receiver, call it on a nil *KafkaWriter) so
+// that a harness can find out at run time, by reflection, whether the tree it is linked
+// against has it.
+func (*KafkaWriter) VerifNewWithCap(topic topic.Topic, writeFn func(ctx context.Context, msgs ...kafka.Message) error, chanCap int) *KafkaWriter {
+	writer := &KafkaWriter{
+		Writer: &kafka.Writer{
+			Addr:                   kafka.TCP(viper.GetStringSlice("kafkaEndpoints")...),
+			Topic:                  string(topic),
+			Balancer:               &kafka.Hash{},
+			AllowAutoTopicCreation: true,
+		},
+		toBatchMessagesChan: make(chan kafka.Message, chanCap),
+		messageBuffer:       NewFifoBuffer[kafka.Message](),
+		batchingLoopDoneCh:  make(chan struct{}, 1),
+	}
+	writer.writeFunction = func(messages []kafka.Message, metric *monitoring.Metric) {
+		defer ecsmetrics.TimerNS(metric)()
+		if err := writeFn(context.Background(), messages...); err != nil {
+			metric.AddValue("messages_failed", len(messages))
+			log.Errorf("failed to write %d messages to kafka with error: %v", len(messages), err)
+		}
+	}
+	go writer.writingLoop()
+	go writer.batchingLoop()
+	return writer
+}
